@@ -108,10 +108,12 @@ func runC09(c *Ctx) {
 	a := collectInputAtoms(streamer)
 	c.R.Count("atoms E/B/F/C", len(a.E)+len(a.B)+len(a.F)+len(a.C))
 	key := core.FuncName(streamer)
+	c.R.Rule("C09.order", "anchor: the input streamer contains all four kinds of atoms - encodeBlock(Input), flush, the OnInput callback and the blank terminator; the ordering rules below are stated over them")
 	if len(a.E) == 0 || len(a.B) == 0 || len(a.F) == 0 || len(a.C) == 0 {
 		c.R.Unk("C09.order", key, cfg, p.Pos(streamer.Pos()), sprintf("atoms missing: E=%d B=%d F=%d C=%d", len(a.E), len(a.B), len(a.F), len(a.C)))
 		return
 	}
+	c.R.Ok("C09.order", key, cfg, p.Pos(streamer.Pos()), sprintf("atoms E=%d B=%d F=%d C=%d", len(a.E), len(a.B), len(a.F), len(a.C)))
 	isE, isB, isF := isIn(a.E), isIn(a.B), isIn(a.F)
 	isC := func(in ssa.Instruction) bool {
 		for _, x := range a.C {
